@@ -547,6 +547,42 @@ theorem c17_only_required_or_kept (c : DsCfg N D) (expPaths mcPaths : List P) (l
           have := key _ m0 a (hm.trans hma) n hn
           simpa [List.mem_append] using this
 
+/-! ### histories on one shared configuration -/
+
+/-- **Frame**: a load does not write the configuration-level stage table (the merged table is a new
+dictionary): the post-state of `cfg['datafields']` is its pre-state, whatever the data-set level
+table, the files, the options and the outcome (also when the load raises). -/
+theorem c17_config_frame (c : DsCfg N D) (expPaths mcPaths : List P) (livetime : Bool) :
+    (loadAndPrepareS st loader prep c expPaths mcPaths livetime).1 = c.cfgFields := rfl
+
+/-- **History independence**: in any sequence of loads on one shared configuration (several data
+sets, or the same data set with changed keep-fields / data-set level table), every load returns
+exactly what it returns on a fresh configuration — no data-set level stage entry leaks into a later
+load. -/
+theorem c17_history_eq_fresh (cfg : List (N × Nat)) (rs : List (LoadReq N D P)) :
+    runHistory st loader prep cfg rs =
+      rs.map (fun r => loadAndPrepare st loader prep (r.cfg cfg) r.expPaths r.mcPaths r.livetime) := by
+  induction rs with
+  | nil => rfl
+  | cons r rs ih =>
+    unfold runHistory at ih ⊢
+    simp only [runHistoryWith, List.map_cons]
+    rw [c17_config_frame]
+    exact congrArg _ ih
+
+/-- a load that merged the data-set level table into the configuration *in place* would not have
+this property: data set A (data-set level table {1 ↦ ANALYSIS_EXP}) followed by data set B (no
+table) on one configuration makes B demand field 1 (KeyError) although B alone loads fine. -/
+theorem c17_in_place_merge_leaks :
+    let loader : List Nat → Opts Nat Nat → Except Err (Arr Nat Nat Nat) :=
+      fun ps _ => if ps = [0] then .ok ⟨[⟨0, 0, [7]⟩, ⟨1, 0, [8]⟩], 1⟩ else .ok ⟨[⟨0, 0, [9]⟩], 1⟩
+    let a : LoadReq Nat Nat Nat := ⟨[(1, 4)], [], [], [], [], none, [0], [], true⟩
+    let b : LoadReq Nat Nat Nat := ⟨[], [], [], [], [], none, [1], [], true⟩
+    runHistoryWith (fun c e m l => (mergeTables c.cfgFields c.dsFields,
+        loadAndPrepare ⟨1, 2, 4, 8⟩ loader (fun d => .ok d) c e m l)) [(0, 4)] [a, b] ≠
+      runHistory ⟨1, 2, 4, 8⟩ loader (fun d => .ok d) [(0, 4)] [a, b] := by
+  decide
+
 end dataset
 
 /-! ### non-vacuity: concrete inputs meeting the hypotheses -/
